@@ -292,6 +292,7 @@ class FrontEnd:
         from .. import absint as _absint
 
         _absint.EVAL_MESSAGES.append(True)
+        _absint.CHECK_ASSERTS.append(True)  # assert statements run, as they do in the program (one that cannot be evaluated is skipped)
         try:
             out["result"] = deep_call(lambda: call_fn(self.ctx, fn, args, kwargs or {}, hook=self.hook, keep=tuple(fn.module.functions)))
         except Raised as r:
@@ -307,10 +308,17 @@ class FrontEnd:
             if getattr(r, "wrapped", None):
                 out["wrapped"] = r.wrapped  # type: ignore
         except Unfoldable as ex:
-            raise AnalysisError("%s: the front end cannot be evaluated over these texts: %s" % (fn.short, ex))
+            if type(ex).__name__ == "TooLarge" or str(ex) in ("step limit", "loop bound"):
+                # the evaluated code walks a collection whose size follows a numeric parameter of the definitions (a length
+                # set expanded element by element): reported to the rule, which decides what that means
+                out["too_large"] = str(ex)
+                out["raised"] = "<enumeration>"
+            else:
+                raise AnalysisError("%s: the front end cannot be evaluated over these texts: %s" % (fn.short, ex))
         finally:
             APath.FS, APath.CWD, APath.STRICT = saved
             _absint.EVAL_MESSAGES.pop()
+            _absint.CHECK_ASSERTS.pop()
         if _fold.INT_STR_LIMIT_HITS:
             out["int_str_limit"] = list(_fold.INT_STR_LIMIT_HITS)
         return out
@@ -401,6 +409,9 @@ class FrontEnd:
         try:
             bls = self._prop(t, "bit_length_set")
             d["min"], d["max"] = self._prop(bls, "min"), self._prop(bls, "max")
+            if getattr(self, "expand", False) and d["max"] - d["min"] <= 4096:
+                fx = Folder({"o": t}, self.repo, t._cls_.module, None, self.hook)
+                d["lengths"] = sorted(fx.fold(ast.parse("set(o.bit_length_set)", mode="eval").body))
             d["extent"] = self._prop(t, "extent")
             d["alignment"] = self._prop(t, "alignment_requirement")
         except (Unfoldable, Raised) as ex:
@@ -430,6 +441,7 @@ class FrontEnd:
             # ... in which earlier calls may have been made: their outcome is not looked at, what they leave behind is there
             self.job(dict(earlier, _continued=True))
         self.deep = bool(j.get("deep"))
+        self.expand = bool(j.get("expand"))
         h = Recorder("print") if j.get("handler") else None
         if j.get("handler") == "falsy":
 
